@@ -29,6 +29,23 @@ func strArg(v Value, what string) string {
 func (e *Exec) rangedVar(name string, lo, hi *big.Int) *Term {
 	_, existed := e.tc.varByNm[name]
 	t := e.tc.Var(name, SInt)
+	if !existed && e.model != nil {
+		// extend the model with a default inside the declared range (the variable is fresh)
+		if _, have := e.model.vals[name]; !have {
+			d := big.NewInt(1)
+			if lo != nil && d.Cmp(lo) < 0 {
+				d = new(big.Int).Set(lo)
+			}
+			if lo != nil && lo.Cmp(timeLo) == 0 {
+				e.timeVars++
+				d = new(big.Int).Add(lo, new(big.Int).Mul(big.NewInt(int64(e.timeVars)), big.NewInt(86400000000000)))
+			}
+			if hi != nil && d.Cmp(hi) >= 0 {
+				d = new(big.Int).Set(lo)
+			}
+			e.model.vals[name] = d.String()
+		}
+	}
 	if !existed {
 		if lo != nil {
 			e.assertTerm(e.tc.mk("<=", SBool, mkInt(lo), t))
@@ -241,7 +258,15 @@ func init() {
 		if !y.pos && !(y.IsConst() && y.val.Sign() > 0) {
 			e.assume(e.tc.Lt(tZero, y))
 		}
-		return e.tc.Neg(e.tc.mkFloorDiv(e.tc.Neg(x), y))
+		// ceil(x/y) = floor(x/y) + (x mod y > 0 ? 1 : 0), the same shape the library's Ceil takes
+		q := e.tc.mkFloorDiv(x, y)
+		var r *Term
+		if y.pos || (y.IsConst() && y.val.Sign() > 0) {
+			r = e.tc.modPos(x, y)
+		} else {
+			r = e.tc.mk("mod", SInt, x, y)
+		}
+		return e.tc.Ite(e.tc.Lt(tZero, r), e.tc.Add(q, tOne), q)
 	})
 	zcmp := func(name string, f func(e *Exec, x, y *Term) *Term) {
 		reg(Z+name, func(e *Exec, _ *ssa.Function, a []Value) Value {
@@ -264,6 +289,9 @@ func (c *TermCtx) mkFloorDiv(x, y *Term) *Term {
 	if x.IsConst() && y.IsConst() && y.val.Sign() > 0 {
 		q := new(big.Int).Div(x.val, y.val) // Euclidean == floor for positive divisor
 		return mkInt(q)
+	}
+	if y.pos || (y.IsConst() && y.val.Sign() > 0) {
+		return c.floorDivPos(x, y)
 	}
 	t := c.mk("div", SInt, x, y)
 	t.bits = x.bits
